@@ -582,5 +582,6 @@ fn main() {
 
 /// Función ficticia para arreglar linkado en win32
 /// Nunca se llama porque tenemos configurado panic=abort
+#[cfg(all(target_os = "windows", panic = "abort"))]
 #[no_mangle]
 pub extern "C" fn _Unwind_Resume() {}
